@@ -30,7 +30,9 @@ PROGRAMS = {
     'ok_only': 'a:\nb:\naddi x1, x0, 5\nc:\nli x6, K',
     'nolabels': 'addi x1, x0, 5\nli x6, K\ndw 7',
     'needs_i': 'a:\ninclude part.asm\nj a',
+    'golden_align': 'li a0 1\nmv a1 a0\nret\nalign 4\ntable:\ndw 0x11223344\nend:',
     'nested_i': 'a:\ninclude drivers/uart.asm\nj a',
+    'own_dir_i': 'a:\ninclude ../lib/util.asm\nj a',
     'range_long': 'start:\naddi x1, x0, K\nj start\nend:\ndw 7\ndw 8',
     'labels_only': 'a:\nb:',
 }
@@ -48,9 +50,34 @@ INC = {'/proj/src/inc/part.asm': 'part:\naddi x3, x0, K\ndw part',
        # reached through -i ../vendor; its nested include names a sibling that also exists next to main.asm
        '/proj/vendor/drivers/uart.asm': 'uart:\ninclude regs.asm\naddi x3, x0, K',
        '/proj/vendor/drivers/regs.asm': 'REG = 4\naddi x4, x0, REG',
-       '/proj/src/regs.asm': 'REG = 5\naddi x5, x0, REG\ndw 1'}
+       '/proj/src/regs.asm': 'REG = 5\naddi x5, x0, REG\ndw 1',
+       # -i names the directory of the input file itself; a file in another directory needs it for its own include
+       '/proj/lib/util.asm': 'util:\ninclude common.asm\naddi x3, x0, K',
+       '/proj/src/common.asm': 'COMMON = 0x55\naddi x4, x0, COMMON',
+       '/proj/lib/common.asm': 'COMMON = 0x2a\naddi x4, x0, COMMON\ndw 1'}
+# programs whose bytes and label table are written out by hand from the ISA encodings (spec/isa.py agrees, see
+# _check_golden): an oracle for the files that does not come from the assembler under test
+GOLDEN = {
+    'golden_align': {False: ('13051000' '93050500' '67800000' '44332211', {'table': 12, 'end': 16}),
+                     True: ('0545' 'aa85' '8280' '0000' '44332211', {'table': 8, 'end': 12})},
+}
+
+
+def _check_golden():
+    from spec import isa
+    from .enc import spec_concrete
+
+    def w(m, **ops):
+        legal, dc, word = spec_concrete(isa.T[m], ops)
+        assert legal
+        return word.to_bytes(isa.T[m].bits // 8, 'little').hex()
+    assert GOLDEN['golden_align'][False][0] == w('addi', rd=10, rs1=0, imm=1) + w('addi', rd=11, rs1=10, imm=0) + w('jalr', rd=0, rs1=1, imm=0) + '44332211'
+    assert GOLDEN['golden_align'][True][0] == w('c.li', rd=10, imm=1) + w('c.mv', rd=11, rs2=10) + w('c.jr', rs1=1) + '0000' + '44332211'
+
+
 # (program, option set) -> the program with its includes spliced in by hand (the documented search decides which file)
 SPLICED = {
+    ('own_dir_i', 'i_src'): 'a:\nutil:\nCOMMON = 0x55\naddi x4, x0, COMMON\naddi x3, x0, K\nj a',
     ('nested_i', 'i_vendor'): 'a:\nuart:\nREG = 4\naddi x4, x0, REG\naddi x3, x0, K\nj a',
     ('included', 'o'): 'a:\npart:\naddi x3, x0, K\ndw part\nj a',
     ('included', 'o_l'): 'a:\npart:\naddi x3, x0, K\ndw part\nj a',
@@ -71,6 +98,7 @@ ARGVS = {
     'hex_sym': ['--hex-offset', '@H@', '-o', 'out.bin'],
     'hex_sym_l': ['-l', 'labels.txt', '--hex-offset', '@H@'],
     'i_vendor': ['-i', '../vendor', '-o', 'out.bin', '-l', 'labels.txt'],
+    'i_src': ['-i', '../src', '-o', 'out.bin'],
     'i_two': ['-i', 'zinc', '-i', 'ainc', '-o', 'out.bin', '-l', 'labels.txt'],
     'i_two_dup': ['-i', 'zinc', '-i', '../run/ainc', '-i', 'zinc'],
 }
@@ -115,7 +143,7 @@ def cli_task(prog, argv_name, prop='C17'):
 
     def fn(p):
         v = vfsmod.VFS('/proj/run')
-        for d in ('/proj/run', '/proj/src', '/proj/src/inc', '/proj/run/zinc', '/proj/run/ainc', '/proj/vendor', '/proj/vendor/drivers'):
+        for d in ('/proj/run', '/proj/src', '/proj/src/inc', '/proj/run/zinc', '/proj/run/ainc', '/proj/vendor', '/proj/vendor/drivers', '/proj/lib'):
             v.add_dir(d)
         for pth, data in OLD.items():
             (v.add_bytes if isinstance(data, bytes) else v.add_text)(pth, data)
@@ -199,6 +227,17 @@ def cli_task(prog, argv_name, prop='C17'):
         if f is None or f.kind != 'written' or len(f.content) != 1 or \
                 not _same_bytes(f.content[0], out):
             probs.append('-o file is not exactly the assembled bytes')
+        if prog in GOLDEN and out is not None:
+            _check_golden()
+            ghex, glabels = GOLDEN[prog][bool(p.notes['comp'])]
+            try:
+                got = concretize(SymBytes.of(f.content[0]), model).hex() if f is not None and f.kind == 'written' and len(f.content) == 1 else None
+            except BaseException:
+                got = None
+            if got != ghex:
+                probs.append('-o file holds %s, the program encodes by hand to %s' % (got, ghex))
+            if labels is not None and {k: core.concrete(v, model) for k, v in labels.items()} != glabels:
+                probs.append('labels %r, by hand %r' % ({k: core.concrete(v, model) for k, v in labels.items()}, glabels))
         # programs with includes: the bytes are those of the hand-spliced program (assembled by a fresh copy of the module)
         sp = SPLICED.get((prog, argv_name))
         if sp is not None and out is not None:
@@ -297,7 +336,7 @@ def _real_cli(real, progs, argv, kv):
     old_cwd, old_argv = os.getcwd(), sys.argv
     log = []
     try:
-        for d in ('/proj/run', '/proj/src/inc', '/proj/run/zinc', '/proj/run/ainc', '/proj/vendor/drivers'):
+        for d in ('/proj/run', '/proj/src/inc', '/proj/run/zinc', '/proj/run/ainc', '/proj/vendor/drivers', '/proj/lib'):
             os.makedirs(root + d, exist_ok=True)
         for pth, data in OLD.items():
             with open(root + pth, 'wb' if isinstance(data, bytes) else 'w') as f:
